@@ -140,6 +140,9 @@ class MessageSchema(Schema):
         """Transform message string to a dict."""
         # The payload is the rest of the line and may contain the delimiter.
         list_data = in_data.rstrip().split(DELIMITER, len(self.fields) - 1)
+        if len(list_data) != len(self.fields):
+            # The cross-field validators look up the other fields.
+            raise ValidationError("Not a valid message string: missing fields.")
         return dict(zip(self.fields, list_data, strict=False))
 
     @post_load
